@@ -176,7 +176,14 @@ fn spawn_worker(
     deadline_s: Option<f64>,
     agg: &mut Agg,
 ) -> Option<i32> {
-    let exe = std::env::current_exe().expect("current_exe");
+    // a harness problem (binary replaced under a running check, fork failure) is exit 2, never an alarm
+    let exe = match std::env::current_exe() {
+        Ok(e) => e,
+        Err(e) => {
+            eprintln!("harness error: current_exe: {e}");
+            std::process::exit(2);
+        }
+    };
     let mut cmd = Command::new(exe);
     cmd.arg("worker")
         .arg(prop)
@@ -190,7 +197,13 @@ fn spawn_worker(
     if let Some(d) = deadline_s {
         cmd.env("MLSIM_DEADLINE_S", format!("{d}"));
     }
-    let mut child = cmd.spawn().expect("spawn worker");
+    let mut child = match cmd.spawn() {
+        Ok(c) => c,
+        Err(e) => {
+            eprintln!("harness error: cannot spawn the worker process: {e}");
+            std::process::exit(2);
+        }
+    };
     let stdout = child.stdout.take().unwrap();
     for line in BufReader::new(stdout).lines() {
         let Ok(line) = line else { break };
